@@ -226,6 +226,12 @@ CHECK_DEADLOCK FALSE
         key = bytes(rng.randrange(1, 256) for _ in range(n))
         area, stored = refguard.protect(bodies[-1], key, ["user", "ip"])
         jobs2.append(({"body": len(bodies), "area": L(area), "key": L(key), "keylen": n, "opts": ["user", "ip"], "kind": "none", "stored": stored, "reportable": True}, "raw", rng.choice(["zero", "mid"]), rng.randrange(1 << 30)))
+    # keys with inner structure: a unit repeated and cut off in the middle of a repetition (the period does not divide the length), a key
+    # that begins and ends alike, a unit repeated a whole number of times - host and domain names look like that
+    structured = [(b"node-7." * 40)[:200], (b"WORKSTATION-" * 11)[:129], b"ababa", b"abca", (b"corp" * 5)[:18], b"xyzxyzxy", b"lab.lab.lab.", (b"\x01\x02\x03" * 90)[:256]]
+    for key in (structured if not q else structured[:6]):
+        area, stored = refguard.protect(bodies[0], key, ["computer", "domain"])
+        jobs2.append(({"body": 1, "area": L(area), "key": L(key), "keylen": len(key), "opts": ["computer", "domain"], "kind": "none", "stored": stored, "reportable": True}, "raw", rng.choice(["zero", "mid"]), rng.randrange(1 << 30)))
     # a uniform run that ties with the zero padding in the n-gram statistics of the key length (keys longer than 128 bytes:
     # shorter ones are also found through a multiple of their length)
     n_tie = 0
